@@ -856,6 +856,11 @@ RELOAD:
 	vp("rd.loaded", s, int64(status), 0)
 	switch status {
 	case statusPassiveClosed, statusActiveClosed, statusPassiveClosing:
+		if s.redialForClientLocked != nil {
+			// whoever ended the session may have done so before calls
+			// were written on this read loop's connection
+			s.cancelPendingCalls(err)
+		}
 		return
 	case statusActiveClosing:
 	default:
@@ -874,26 +879,10 @@ RELOAD:
 	}
 	vp("rd.deleted", s, 0, 0)
 
-	var reason string
-	if err != nil && err != socket.ErrProactivelyCloseSocket {
-		if errStr := err.Error(); errStr != "EOF" {
-			reason = errStr
-			Debugf("disconnect(%s) when reading: %T %s", s.RemoteAddr().String(), err, errStr)
-		}
-	}
 	s.graceCtxWait()
 	vp("rd.waited", s, 0, 0)
 
-	// cancel the callCmd that is waiting for a reply
-	s.callCmdMap.Range(func(_, v interface{}) bool {
-		callCmd := v.(*callCmd)
-		callCmd.mu.Lock()
-		if !callCmd.hasReply() && callCmd.stat.OK() {
-			callCmd.cancel(reason)
-		}
-		callCmd.mu.Unlock()
-		return true
-	})
+	s.cancelPendingCalls(err)
 
 	vp("rd.cancelled", s, 0, 0)
 	if status == statusActiveClosing || stale {
@@ -924,6 +913,26 @@ RELOAD:
 		s.peer.pluginContainer.postDisconnect(s)
 		vp("rd.hooked", s, 0, 0)
 	}
+}
+
+// cancelPendingCalls cancels the callCmd that is waiting for a reply.
+func (s *session) cancelPendingCalls(err error) {
+	var reason string
+	if err != nil && err != socket.ErrProactivelyCloseSocket {
+		if errStr := err.Error(); errStr != "EOF" {
+			reason = errStr
+			Debugf("disconnect(%s) when reading: %T %s", s.RemoteAddr().String(), err, errStr)
+		}
+	}
+	s.callCmdMap.Range(func(_, v interface{}) bool {
+		callCmd := v.(*callCmd)
+		callCmd.mu.Lock()
+		if !callCmd.hasReply() && callCmd.stat.OK() {
+			callCmd.cancel(reason)
+		}
+		callCmd.mu.Unlock()
+		return true
+	})
 }
 
 func (s *session) redialForClient(oldConn net.Conn) bool {
